@@ -18,8 +18,7 @@ trait FieldElement: Sized + Copy + Clone + PartialEq + Eq + Debug {
     fn one() -> (r: Self)
         ensures r.ok(), r.val() == Self::s_one();
     fn is_zero(&self) -> (r: bool)
-        requires self.ok()
-        ensures r == (self.val() == Self::s_zero());
+        ensures self.ok() ==> r == (self.val() == Self::s_zero());
     fn fp_sqr(&self) -> (r: Self)
         requires self.ok()
         ensures r.ok(), r.val() == Self::s_mul(self.val(), self.val());
